@@ -182,12 +182,15 @@ type panicError struct{ v interface{} }
 
 func (p panicError) Error() string { return fmt.Sprintf("panic: %v", p.v) }
 
-func safeRegister(m *larking.Mux, gsd *grpc.ServiceDesc) (err error) {
+func safeRegister(m *larking.Mux, gsd *grpc.ServiceDesc, ss ...interface{}) (err error) {
 	defer func() {
 		if p := recover(); p != nil {
 			err = panicError{p}
 		}
 	}()
+	if len(ss) > 0 {
+		return m.VerifRegisterService(gsd, ss[0]) // the implementation object, as an application passes it
+	}
 	return m.VerifRegisterService(gsd, nil)
 }
 
